@@ -5,7 +5,13 @@ use serde_json::Value;
 
 pub mod c03;
 pub mod c04;
+pub mod c05;
+pub mod c06;
+pub mod c15;
 pub mod c17;
+pub mod c20;
+pub mod flows;
+pub mod heads;
 pub mod c18;
 pub mod c19;
 pub mod sendbody;
@@ -17,8 +23,12 @@ pub fn registry() -> Vec<(&'static str, RunFn, &'static str, ReplayFn)> {
     vec![
         ("C03", c03::run, c03::RULE, c03::replay),
         ("C04", c04::run, c04::RULE, c04::replay),
+        ("C05", c05::run, c05::RULE, c05::replay),
+        ("C06", c06::run, c06::RULE, c06::replay),
+        ("C15", c15::run, c15::RULE, c15::replay),
         ("C17", c17::run, c17::RULE, c17::replay),
         ("C18", c18::run, c18::RULE, c18::replay),
         ("C19", c19::run, c19::RULE, c19::replay),
+        ("C20", c20::run, c20::RULE, c20::replay),
     ]
 }
